@@ -7,6 +7,7 @@ Routes per case (see harness/vcheck/c09.py):
   db       DatabasePaths.save_samples (all / minimised) -> commit -> expire -> Fit.samples
   fit      a real (Drawer) fit run twice: the second run loads the completed fit
   dbseq    DatabasePaths.save_samples twice with a commit in between, then load
+  hist     ONE DirectoryPaths and ONE DatabasePaths object over a history of updates (own sample set each) and reloads
 """
 import csv as _csv
 import json
@@ -517,6 +518,151 @@ def run_jsonhist_case(c):
     return {"obs": obs}
 
 
+def table_cells(sample_list, model):
+    """the loaded table as binary64 cells: per sample the value per unique prior path, then ll, lp, weight"""
+    return [[fh(x) for x in s.parameter_lists_for_model(model)] + [fh(s.log_likelihood), fh(s.log_prior), fh(s.weight)]
+            for s in sample_list]
+
+
+def info_cells(info):
+    return [[fh(info["total_iterations"]), fh(info["time"])]]
+
+
+def run_hist_case(c):
+    """ONE paths object per storage (DirectoryPaths, DatabasePaths) over a history of updates and reloads: every "save"
+    persists a stage (its own sample set: other count, values, order) the way perform_update does (summary, then samples),
+    every "load" reads everything back THROUGH THE SAME OBJECT and through fresh readers (new paths object, aggregator)."""
+    priors = make_priors(c["npri"], c.get("kinds", ["u"]))
+    model = build(c["tree"], priors)
+    tag = "hist%d_%d" % (os.getpid(), c["idx"])
+    stages = [make_samples({**c, "rows": rows, "time": 1.25 + k}, model) for k, rows in enumerate(c["stages"])]
+    for k, smp in enumerate(stages):
+        smp.samples_info["time"] = 1.25 + k
+    summaries = [attempt(lambda smp=smp: smp.summary()) for smp in stages]
+    out = {"stage_views": [view(smp, model) for smp in stages],
+           "stage_cells": [table_cells(smp.sample_list, model) for smp in stages],
+           "stage_info": [info_cells(smp.samples_info) for smp in stages],
+           "stage_summaries": [view_summary(x["ok"], model) if "ok" in x else None for x in summaries]}
+
+    def summary_view(lo, mdl):
+        if "ok" in lo and lo["ok"] is None:
+            return {"load": {"exc": "NoSummary", "msg": "load_samples_summary returned None"}}
+        return view_summary(lo["ok"], mdl) if "ok" in lo else {"load": lo}
+
+    def samples_view(lo, mdl=None):
+        if "ok" in lo and lo["ok"] is None:
+            return {"load": {"exc": "NoSamples", "msg": "samples is None"}}
+        if "ok" not in lo:
+            return {"load": lo}
+        v = view(lo["ok"], mdl or model)
+        if mdl is not None:
+            v["shape"] = attempt(lambda: shape_ranked(mdl))
+        return v
+
+    # ---------------------------------------------------------------- directory
+    def fresh_dir():
+        p = af.DirectoryPaths(name=tag, unique_tag=tag)
+        p.model = model
+        p.search = af.m.MockSearch(name=tag, unique_tag=tag)
+        return p
+    paths = fresh_dir()
+    early = None                 # an aggregator object made after the first update and read only at the very end
+    events = []
+    cur, cur_summary = None, None
+    for op in c["ops"]:
+        if op["op"] == "save":
+            k = op["stage"]
+            ev = {"op": "save", "stage": k}
+            if "ok" in summaries[k]:
+                ev["summary_save"] = attempt(lambda: paths.save_samples_summary(summaries[k]["ok"]) or True)
+                if "ok" in ev["summary_save"]:
+                    cur_summary = k
+            ev["save"] = attempt(lambda: paths.save_samples(stages[k]) or True)
+            if cur is None:
+                paths.save_json("model", to_dict(model))
+                early = SearchOutput(paths.output_path)
+            if "ok" in ev["save"]:
+                cur = k
+            events.append(ev)
+        elif op["op"] == "load":
+            ev = {"op": "load", "after": cur, "after_summary": cur_summary}
+            ev["paths"] = samples_view(attempt(lambda: paths.samples))
+            ev["table"] = attempt(lambda: table_cells(paths.load_samples(), model))
+            ev["info"] = attempt(lambda: info_cells(paths.load_samples_info()))
+            ev["raw"] = attempt(lambda: raw_table(paths._samples_file)["rows"])
+            if cur_summary is not None:
+                ev["summary"] = summary_view(attempt(lambda: paths.load_samples_summary()), model)
+            if op.get("fresh", True):
+                p2 = fresh_dir()
+                ev["fresh"] = samples_view(attempt(lambda: p2.samples))
+                ev["fresh_table"] = attempt(lambda: table_cells(p2.load_samples(), model))
+                if cur_summary is not None:
+                    ev["fresh_summary"] = summary_view(attempt(lambda: p2.load_samples_summary()), model)
+                so = SearchOutput(paths.output_path)
+                ev["agg"] = samples_view(attempt(lambda: so.samples), so.model)
+                if cur_summary is not None:
+                    ev["agg_summary"] = summary_view(attempt(lambda: so.samples_summary), so.model)
+            events.append(ev)
+    if early is not None:
+        ev = {"op": "load", "after": cur, "after_summary": cur_summary, "final": True}
+        ev["agg"] = samples_view(attempt(lambda: early.samples), early.model)
+        if cur_summary is not None:
+            ev["agg_summary"] = summary_view(attempt(lambda: early.samples_summary), early.model)
+        events.append(ev)
+    out["dir"] = events
+
+    # ---------------------------------------------------------------- database
+    dp = db_paths(model, tag, True)
+    dp.save_all({})
+    events = []
+    cur, cur_summary = None, None
+    for op in c["ops"]:
+        if op["op"] == "save":
+            k = op["stage"]
+            ev = {"op": "save", "stage": k}
+            if op.get("commit_before"):
+                session().commit()
+            if "ok" in summaries[k]:
+                ev["summary_save"] = attempt(lambda: dp.save_samples_summary(summaries[k]["ok"]) or True)
+                if "ok" in ev["summary_save"]:
+                    cur_summary = k
+            ev["save"] = attempt(lambda: dp.save_samples(stages[k]) or True)
+            if "ok" in ev["save"]:
+                cur = k
+            events.append(ev)
+        elif op["op"] == "load":
+            ev = {"op": "load", "after": cur, "after_summary": cur_summary}
+            fresh = op.get("fresh", True)
+            if fresh:                    # a reader in another session sees committed rows only
+                session().commit()
+                if op.get("expire"):
+                    session().expire_all()
+            ev["paths"] = samples_view(attempt(lambda: dp._load_samples()))
+            ev["table"] = attempt(lambda: table_cells(dp.load_samples(), model))
+            ev["info"] = attempt(lambda: info_cells(dp.load_samples_info()))
+            if cur_summary is not None:
+                ev["summary"] = summary_view(attempt(lambda: dp.load_samples_summary()), model)
+            if fresh:
+                dp2 = db_paths(model, tag, True)
+                ev["fresh"] = samples_view(attempt(lambda: dp2._load_samples()))
+                ev["fresh_table"] = attempt(lambda: table_cells(dp2.load_samples(), model))
+                if cur_summary is not None:
+                    ev["fresh_summary"] = summary_view(attempt(lambda: dp2.load_samples_summary()), model)
+                ident = dp.identifier
+                fit = attempt(lambda: session().query(Fit).filter(Fit.id == ident).one())
+                if "ok" in fit:
+                    fit = fit["ok"]
+                    ev["agg"] = samples_view(attempt(lambda: fit.samples))
+                    ev["agg_info"] = attempt(lambda: info_cells(fit.get_json("samples_info")))
+                    if cur_summary is not None:
+                        ev["agg_summary"] = summary_view(attempt(lambda: fit["samples_summary"]), fit.model)
+                else:
+                    ev["agg"] = {"load": fit}
+            events.append(ev)
+    out["db"] = events
+    return out
+
+
 def run_fit_case(c):
     """A Drawer fit, then the same fit again: the second run must load the completed fit's result."""
     priors = make_priors(c["npri"], c.get("kinds", ["u"]))
@@ -591,6 +737,8 @@ def run_case(c):
         return run_fit_case(c)
     if kind == "jsonhist":
         return run_jsonhist_case(c)
+    if kind == "hist":
+        return run_hist_case(c)
     raise ValueError(kind)
 
 
